@@ -1165,17 +1165,26 @@ const CFGS: [(Cfg, &str); 9] = [
     (Cfg::NoFuel, "no-fuel"),
 ];
 
-const HELPERS: [(&str, &str); 4] = [
+const HELPERS: [(&str, &str); 6] = [
     (
         "inc.txt",
         "{% with q = 1 %}{% for z in [1, 2] %}{% if z == 2 %}{% break %}{% endif %}i{{ z }}{% endfor %}{% endwith %}{{ h }}",
     ),
-    ("inc.html", "{{ h }}"),
+    // the included child and the imported module EXTEND, lexically inside a capturing block (set-block /
+    // filter block): the block's EndCapture pops the discard entry of LoadBlocks, the block's own capture
+    // is on top at the end of the child's stream — the parent's text (and everything the includer /
+    // importer writes afterwards) has to arrive all the same
+    ("inc.html", "{% set ev %}e{% extends 'incp.html' %}f{% endset %}g"),
+    ("incp.html", "{{ h }}"),
+    ("libp.txt", "{% set lp = 1 %}"),
     (
         "bad.html",
         "{% with y = 1 %}{% autoescape false %}{% set c %}x{% for i in [1] %}{{ fail() }}{% endfor %}{% endset %}{% endautoescape %}{% endwith %}",
     ),
-    ("lib.txt", "{% macro lm(a) %}{% set t %}m{% endset %}{{ t }}{% endmacro %}"),
+    (
+        "lib.txt",
+        "{% if true %}{% filter upper %}e{% extends 'libp.txt' %}f{% endfilter %}{% endif %}{% macro lm(a) %}{% set t %}m{% endset %}{{ t }}{% endmacro %}",
+    ),
 ];
 
 /// the template sources in the delimiters of the configuration
@@ -1487,8 +1496,21 @@ fn params_name(p: &Params) -> String {
 
 /// renders one shape under one context on the real engine and judges the result
 /// the child template of `Entry::Child` for a compiled shape
-fn child_source(t: &minijinja::Template<'_, '_>) -> String {
-    let mut child = format!("{{% extends '{}' %}}", t.name());
+/// where the `extends` statement of the child sits: at the top level or inside a construct of the child
+/// (the child's own output is discarded either way; the parent's output has to reach the real output)
+const EXTENDS_AT: [(&str, &str, &str); 7] = [
+    ("top", "", ""),
+    ("set", "{% set ev %}e", "f{% endset %}"),
+    ("filter", "{% filter upper %}e", "f{% endfilter %}"),
+    ("with", "{% with ew = 1 %}", "{% endwith %}"),
+    ("for", "{% for ei in [1] %}", "{% endfor %}"),
+    ("if", "{% if true %}", "{% endif %}"),
+    ("autoescape", "{% autoescape true %}", "{% endautoescape %}"),
+];
+
+fn child_source(t: &minijinja::Template<'_, '_>, variant: usize) -> String {
+    let (_, open, close) = EXTENDS_AT[variant % EXTENDS_AT.len()];
+    let mut child = format!("{}{{% extends '{}' %}}{}", open, t.name(), close);
     let mut names: Vec<String> = get_compiled_template(t).blocks.keys().map(|x| x.to_string()).collect();
     names.sort();
     for (i, b) in names.iter().enumerate() {
@@ -1541,9 +1563,39 @@ fn run_dynamic(
                 (t2.render(ctx), vec![])
             }
             Entry::Child => {
-                let child = child_source(&t);
-                let t2 = env.template_from_named_str("child.txt", &child).unwrap();
-                (t2.render(ctx).map(|x| x.replace(['⟦', '⟧'], "")), vec![])
+                // the position of the `extends` statement rotates with the shape; the first render that
+                // departs from the others is the result (short chains: every position)
+                let pick = shape.name().bytes().map(|b| b as usize).sum::<usize>();
+                let variants: Vec<usize> = if shape.kinds.len() <= 1 { (0..EXTENDS_AT.len()).collect() } else { vec![0, 1 + pick % (EXTENDS_AT.len() - 1)] };
+                let mut rv = None;
+                let mut ex = vec![];
+                for v in variants {
+                    let child = child_source(&t, v);
+                    let t2 = env.template_from_named_str("child.txt", &child).unwrap();
+                    let r = t2.render(ctx.clone()).map(|x| x.replace(['⟦', '⟧'], ""));
+                    let same = match (&rv, &r) {
+                        (None, _) => 0,
+                        (Some(Ok(a)), Ok(b)) if a == b => 1,
+                        (Some(Err(_)), Err(_)) => 1,
+                        _ => 2,
+                    };
+                    if same == 0 {
+                        rv = Some(r);
+                    } else if same == 2 {
+                        let a = rv.as_ref().unwrap();
+                        ex.push(format!(
+                            "extends inside {}: {:?} / at the top level: {:?}",
+                            EXTENDS_AT[v].0,
+                            r.as_ref().map_err(|e| e.kind()),
+                            a.as_ref().map_err(|e| e.kind())
+                        ));
+                        if a.is_ok() && r.is_ok() {
+                            // the output comparison below gets the departing one
+                            rv = Some(r);
+                        }
+                    }
+                }
+                (rv.unwrap(), ex)
             }
             Entry::Captured => match t.render_captured(ctx) {
                 Err(e) => (Err(e), vec![]),
@@ -2359,7 +2411,7 @@ fn main() {
             do_extras(&mut out);
             {
                 let env = shape_env();
-                for n in ["inc.txt", "inc.html", "lib.txt", "bad.html"] {
+                for n in ["inc.txt", "inc.html", "incp.html", "lib.txt", "libp.txt", "bad.html"] {
                     dump_template(&mut out, &format!("extra:shape-helpers/{}", n), "extra", &env.get_template(n).unwrap());
                 }
             }
